@@ -495,6 +495,10 @@ func c11Corpus() []corr.Case {
 	return []corr.Case{
 		// S10: ReadAt then Write on a union handle must land at the same place in both layers
 		{Lines: []string{"case cache-mem 0", "create " + h("/f"), "h.write 0 30313233343536373839", "h.seek 0 0 0", "h.readat 0 3 7", "h.write 0 5858", "h.close 0", "snapshot", "cohere"}},
+		// an open union handle, a second write-open with O_APPEND (which used to fail with EIO and drop the cached copy), a
+		// re-cache through Chtimes, then a write through the first handle: both layers must get it
+		{Lines: []string{"case cache-mem 3600", "b.mkdirall " + h("/d") + " 493", "b.create " + h("/d/g"), "h.write 0 8b3da50479734039bc3b", "b.chtimes " + h("/d/g") + " -9000",
+			"openfile " + h("/d/g") + " 66 420", "openfile " + h("/d/g") + " 1090 420", "chtimes " + h("/d/g") + " -5000", "h.write 1 5d9d2fbf", "snapshot", "cohere"}},
 		// S1: WriteAt then Write
 		{Lines: []string{"case cache-mem 3600", "create " + h("/f"), "h.write 0 68656c6c6f", "h.writeat 0 58 1", "h.write 0 59", "h.close 0", "snapshot", "cohere"}},
 	}
